@@ -5,6 +5,7 @@ pub mod c17;
 pub mod c18;
 pub mod c19;
 pub mod common;
+pub mod dirprops;
 pub mod fsprops;
 
 pub fn run(id: &str, tier: &str) -> i32 {
@@ -14,7 +15,8 @@ pub fn run(id: &str, tier: &str) -> i32 {
     }
     match id {
         "C01" => c01::run(tier),
-        "C02" | "C03" | "C04" | "C05" | "C16" | "C09" | "C10" => {
+        "C06" => dirprops::run_c06(tier),
+        "C02" | "C03" | "C04" | "C05" | "C16" | "C09" | "C10" | "C07" => {
             let d = hist_def(id).unwrap();
             let mut rep = crate::engine::Report::new(d.id, tier, d.level);
             common::run_hist(&d, tier, &mut rep);
@@ -38,6 +40,8 @@ fn hist_def(id: &str) -> Option<common::HistProp> {
         "C04" => Some(fsprops::c04_def()),
         "C05" => Some(fsprops::c05_def()),
         "C16" => Some(fsprops::c16_def()),
+        "C06" => Some(dirprops::c06_def()),
+        "C07" => Some(dirprops::c07_def()),
         "C09" => Some(fsprops::c09_def()),
         "C10" => Some(fsprops::c10_def()),
         _ => None,
@@ -89,6 +93,7 @@ pub fn replay(path: &str) -> i32 {
 
 fn replay_input(id: &str, _inp: &serde_json::Value) -> i32 {
     match id {
+        "C06" => dirprops::replay_input_c06(_inp),
         "C15" => c15::replay_input(_inp),
         "C17" => c17::replay_input(_inp),
         "C18" => c18::replay_input(_inp),
